@@ -150,3 +150,34 @@ func ElStored(kv storage.KvStorage, prefix string) ([]byte, bool, error) {
 	}
 	return append([]byte{}, v...), true, nil
 }
+
+// ElBytes prints a byte string for a Coq case: printable ASCII as `(bs "...")` (Model/Election.v; Coq
+// parses a string literal far faster than a list of numbers), anything else as a list.
+func ElBytes(b []byte) string {
+	if len(b) == 0 {
+		return "[]"
+	}
+	for _, x := range b {
+		if x < 32 || x > 126 {
+			return Bytes(b)
+		}
+	}
+	s := string(b)
+	out := make([]byte, 0, len(s)+8)
+	for i := 0; i < len(s); i++ {
+		if s[i] == '"' {
+			out = append(out, '"', '"')
+		} else {
+			out = append(out, s[i])
+		}
+	}
+	return "(bs \"" + string(out) + "\")"
+}
+
+// ElOptBytes is OptBytes with ElBytes.
+func ElOptBytes(b []byte, present bool) string {
+	if !present {
+		return None()
+	}
+	return Some(ElBytes(b))
+}
